@@ -171,6 +171,7 @@ def run(shard: dict, ctx) -> None:
             ctx.count(f"item_{d[0]}" + (f"_{d[1]}" if d[0] != "good" else "") + ("_special" if d[0] == "good" and str(d[1]).startswith("special") else ""))
         specs = [("none",), ("bytewise",) if len(stream) < 6000 else ("fixed", 4096, rng.randrange(4096))] + [splits.random_spec(rng, len(stream), False) for _ in range(2)]
         specs.append(splits.limit_spec(rng, len(stream)))
+        specs.append(splits.structural_spec(stream, rng))  # calls that begin with a flag and end right after an escape octet
         if big:
             specs.append(("single", rng.randint(1, 40)))  # a tiny first call, then everything else in one huge call
         specs.append(splits.aligned_spec(stream, 0x7E, rng.choice((1, 1, 2, 5))))
